@@ -60,51 +60,56 @@ Proof.
     intros [H|H]; [left; exact H | right; exact (IH H)].
 Qed.
 
+Lemma sget_sdel_other m p q : q <> p -> sget (sdel m p) q = sget m q.
+Proof.
+  intros Hn. induction m as [|[k w] m IH]; [reflexivity|]. cbn [sdel sget].
+  destruct (k =? p) eqn:E; cbn [sget].
+  - apply Z.eqb_eq in E. subst k. destruct (p =? q) eqn:E2; [apply Z.eqb_eq in E2; congruence | reflexivity].
+  - destruct (k =? q); [reflexivity | exact IH].
+Qed.
+
 Lemma region_pre_evolved d inits st0 st : region_pre d inits st0 = Ok st ->
   evolved st0 st /\ (NoDup (skeys st0) -> ~ In p_Position (skeys st)) /\
   shas st p_Origin = true /\ shas st p_Extent = true.
 Proof.
   unfold region_pre. intros H.
+  (* extent: default, then computed *)
+  set (s0 := if shas st0 p_Extent then st0 else sset st0 p_Extent (init_or inits p_Extent)) in *.
+  assert (evolved st0 s0) as V0.
+  { unfold s0. destruct (shas st0 p_Extent); [apply evolved_refl | apply evolved_sset; [right; left; reflexivity | apply evolved_refl]]. }
+  destruct (compute_prop d None s0 p_Extent) as [s1|] eqn:E1; cbn [bind] in H; [|discriminate].
+  apply compute_extent_shape in E1 as [ve ->].
+  set (s1 := sset s0 p_Extent ve) in *.
+  assert (evolved st0 s1) as V1 by (apply evolved_sset; [right; left; reflexivity | exact V0]).
+  assert (shas s1 p_Extent = true) as X1 by apply shas_sset_eq.
   (* origin *)
-  assert (exists s1, (if shas st0 p_Origin then compute_prop d None st0 p_Origin else Ok st0) = Ok s1 /\ evolved st0 s1) as [s1 [E1 V1]].
-  { destruct (shas st0 p_Origin).
-    - destruct (compute_prop d None st0 p_Origin) as [s1|] eqn:E; [|discriminate]. exists s1. split; [reflexivity|].
-      apply compute_origin_shape in E as [v ->]. apply evolved_sset; [left; reflexivity | apply evolved_refl].
-    - exists st0. split; [reflexivity | apply evolved_refl]. }
-  rewrite E1 in H. cbn [bind] in H.
+  assert (exists s2, (if shas s1 p_Origin then compute_prop d None s1 p_Origin else Ok s1) = Ok s2 /\ evolved st0 s2 /\ shas s2 p_Extent = true)
+    as [s2 [E2 [V2 X2]]].
+  { destruct (shas s1 p_Origin).
+    - destruct (compute_prop d None s1 p_Origin) as [s2|] eqn:E; [|discriminate]. exists s2. split; [reflexivity|].
+      apply compute_origin_shape in E as [v ->]. split; [apply evolved_sset; [left; reflexivity | exact V1]|].
+      rewrite shas_sset_neq by discriminate. exact X1.
+    - exists s1. split; [reflexivity|]. split; [exact V1 | exact X1]. }
+  rewrite E2 in H. cbn [bind] in H.
   (* position *)
-  assert (exists s2, (if shas s1 p_Position then bind (compute_prop d None s1 p_Position) (fun st' => Ok (sdel st' p_Position)) else Ok s1) = Ok s2 /\
-                     evolved st0 s2 /\ (NoDup (skeys st0) -> ~ In p_Position (skeys s2))) as [s2 [E2 [V2 P2]]].
-  { destruct (shas s1 p_Position) eqn:Ep.
-    - destruct (compute_prop d None s1 p_Position) as [s'|] eqn:E; [|discriminate]. cbn [bind]. exists (sdel s' p_Position).
+  assert (exists s3, (if shas s2 p_Position then bind (compute_prop d None s2 p_Position) (fun st' => Ok (sdel st' p_Position)) else Ok s2) = Ok s3 /\
+                     evolved st0 s3 /\ (NoDup (skeys st0) -> ~ In p_Position (skeys s3)) /\ shas s3 p_Extent = true) as [s3 [E3 [V3 [P3 X3]]]].
+  { destruct (shas s2 p_Position) eqn:Ep.
+    - destruct (compute_prop d None s2 p_Position) as [s'|] eqn:E; [|discriminate]. cbn [bind]. exists (sdel s' p_Position).
       split; [reflexivity|]. apply compute_position_shape in E as [v1 [v2 ->]]; [|exact Ep].
-      assert (NoDup (skeys st0) -> NoDup (skeys (sset (sset s1 p_Origin v1) p_Position v2))) as N3
-        by (intros Hn; apply NoDup_sset, NoDup_sset, (proj2 V1), Hn).
-      split; [split|].
-      + intros kv Hkv. apply In_sdel_sset in Hkv. apply In_sset in Hkv as [->|Hkv]; [left; left; reflexivity | apply (proj1 V1), Hkv].
+      assert (NoDup (skeys st0) -> NoDup (skeys (sset (sset s2 p_Origin v1) p_Position v2))) as N3
+        by (intros Hn; apply NoDup_sset, NoDup_sset, (proj2 V2), Hn).
+      split; [split|split].
+      + intros kv Hkv. apply In_sdel_sset in Hkv. apply In_sset in Hkv as [->|Hkv]; [left; left; reflexivity | apply (proj1 V2), Hkv].
       + intros Hn. apply (skeys_sdel _ p_Position), (N3 Hn).
       + intros Hn. apply (proj1 (proj2 (skeys_sdel _ p_Position (N3 Hn)))).
-    - exists s1. split; [reflexivity|]. split; [exact V1|]. intros _ Hi. apply shas_In_skeys in Hi. congruence. }
-  rewrite E2 in H. cbn [bind] in H.
-  (* default origin *)
-  set (s3 := if shas s2 p_Origin then s2 else sset s2 p_Origin (init_or inits p_Origin)) in *.
-  assert (evolved st0 s3 /\ (NoDup (skeys st0) -> ~ In p_Position (skeys s3)) /\ shas s3 p_Origin = true) as [V3 [P3 O3]].
-  { unfold s3. destruct (shas s2 p_Origin) eqn:Eo; [auto|]. split; [apply evolved_sset; [left; reflexivity | exact V2]|].
-    split; [intros Hn; apply no_position_sset; [discriminate | exact (P2 Hn)] | apply shas_sset_eq]. }
-  (* extent *)
-  assert (exists s4, (if shas s3 p_Extent then compute_prop d None s3 p_Extent else Ok s3) = Ok s4 /\ evolved st0 s4 /\
-                     (NoDup (skeys st0) -> ~ In p_Position (skeys s4)) /\ shas s4 p_Origin = true /\ shas s4 p_Extent = shas s3 p_Extent) as [s4 [E4 [V4 [P4 [O4 X4]]]]].
-  { destruct (shas s3 p_Extent) eqn:Ee.
-    - destruct (compute_prop d None s3 p_Extent) as [s4|] eqn:E; [|discriminate]. exists s4. split; [reflexivity|].
-      apply compute_extent_shape in E as [v ->]. split; [apply evolved_sset; [right; left; reflexivity | exact V3]|].
-      split; [intros Hn; apply no_position_sset; [discriminate | exact (P3 Hn)]|].
-      split; [rewrite shas_sset_neq; [exact O3 | discriminate] | apply shas_sset_eq].
-    - exists s3. split; [reflexivity|]. auto. }
-  rewrite E4 in H. cbn [bind] in H. inversion H; subst st. clear H.
-  destruct (shas s4 p_Extent) eqn:Ee; [auto|].
-  split; [apply evolved_sset; [right; left; reflexivity | exact V4]|].
-  split; [intros Hn; apply no_position_sset; [discriminate | exact (P4 Hn)]|].
-  split; [rewrite shas_sset_neq; [exact O4 | discriminate] | apply shas_sset_eq].
+      + unfold shas. rewrite sget_sdel_other by discriminate. rewrite sget_sset_neq by discriminate. rewrite sget_sset_neq by discriminate. exact X2.
+    - exists s2. split; [reflexivity|]. split; [exact V2|]. split; [|exact X2]. intros _ Hi. apply shas_In_skeys in Hi. congruence. }
+  rewrite E3 in H. cbn [bind] in H. inversion H; subst st. clear H.
+  destruct (shas s3 p_Origin) eqn:Eo; [auto|].
+  split; [apply evolved_sset; [left; reflexivity | exact V3]|].
+  split; [intros Hn; apply no_position_sset; [discriminate | exact (P3 Hn)]|].
+  split; [apply shas_sset_eq | rewrite shas_sset_neq by discriminate; exact X3].
 Qed.
 
 Lemma region_layout_final c d inits st0 st wm nda : region_layout c d inits st0 = Ok (st, wm, nda) ->
@@ -155,17 +160,21 @@ Proof.
 Qed.
 
 (* ---- whitelist ----------------------------------------------------------------------------------------------------- *)
-Lemma supported_allowed c p v : supported c p = true -> p <> p_Position -> allowed (c_pta c) (c_color c) (c_bg c) p v.
+Lemma supported_allowed c p v : supported c p = true -> allowed (c_pta c) (c_color c) (c_bg c) p v.
 Proof.
-  unfold supported, allowed. intros H Hp.
+  unfold supported, allowed. intros H.
   repeat (apply orb_true_iff in H as [H|H]).
   - left. apply Z.eqb_eq, H.
   - right. left. apply Z.eqb_eq, H.
   - right. right. left. apply Z.eqb_eq, H.
-  - apply Z.eqb_eq in H. congruence.
   - apply andb_true_iff in H as [Ht H]. apply Z.eqb_eq in H. do 5 right. split; [exact H | intros; congruence].
   - destruct (c_color c); [discriminate|]. apply Z.eqb_eq in H. do 3 right. left. auto.
   - destruct (c_bg c); [discriminate|]. apply Z.eqb_eq in H. do 4 right. left. auto.
+Qed.
+Lemma rsupported_allowed c p v : rsupported c p = true -> p <> p_Position -> allowed (c_pta c) (c_color c) (c_bg c) p v.
+Proof.
+  unfold rsupported. intros H Hp. apply orb_true_iff in H as [H|H]; [exact (supported_allowed _ _ _ H)|].
+  apply Z.eqb_eq in H. congruence.
 Qed.
 Lemma layout_allowed pta color bg p v : layout_key p -> allowed pta color bg p v.
 Proof. unfold allowed. intros [-> | [-> | ->]]; auto. Qed.
@@ -175,34 +184,27 @@ Proof.
   intros H. apply In_keep_styles in H as [_ H]. cbn [fst] in H. unfold supported in H.
   split; [|split]; intros ->; revert H;
     change (p_Color =? p_DisplayAlign) with false; change (p_Color =? p_Extent) with false; change (p_Color =? p_Origin) with false;
-    change (p_Color =? p_Position) with false; change (p_Color =? p_TextAlign) with false; change (p_Color =? p_BackgroundColor) with false;
+    change (p_Color =? p_TextAlign) with false; change (p_Color =? p_BackgroundColor) with false;
     change (p_BackgroundColor =? p_DisplayAlign) with false; change (p_BackgroundColor =? p_Extent) with false;
-    change (p_BackgroundColor =? p_Origin) with false; change (p_BackgroundColor =? p_Position) with false;
+    change (p_BackgroundColor =? p_Origin) with false;
     change (p_BackgroundColor =? p_TextAlign) with false; change (p_BackgroundColor =? p_Color) with false;
     change (p_TextAlign =? p_DisplayAlign) with false; change (p_TextAlign =? p_Extent) with false; change (p_TextAlign =? p_Origin) with false;
-    change (p_TextAlign =? p_Position) with false; change (p_TextAlign =? p_Color) with false; change (p_TextAlign =? p_BackgroundColor) with false;
+    change (p_TextAlign =? p_Color) with false; change (p_TextAlign =? p_BackgroundColor) with false;
     destruct (c_pta c), (c_color c), (c_bg c); cbn; congruence.
 Qed.
 
-(* the hypothesis of the partial theorem: no tts:position outside region roots *)
-Definition no_position_content (d : doc) : Prop := trig_position_content d = false.
 (* style dictionaries of the regions have unique keys (they are Python dicts) *)
 Definition region_keys_unique (d : doc) : Prop := forall r, In r (d_regions d) -> NoDup (skeys (e_styles (eattrs r))).
+(* Region elements do not have children (model.py: Region.push_child raises RuntimeError) *)
+Definition regions_childless (d : doc) : Prop := forall r, In r (d_regions d) -> echildren r = [].
 
-Lemma not_position_entry m p v : shas m p_Position = false -> In (p, v) m -> p <> p_Position.
-Proof.
-  intros Hs Hi ->. assert (In p_Position (skeys m)) as Hk by (apply in_map_iff; exists (p_Position, v); auto).
-  apply shas_In_skeys in Hk. congruence.
-Qed.
-
-Lemma body_rel_whitelist c al a a' p v : shas (e_styles a) p_Position = false -> body_rel c al a a' ->
+Lemma body_rel_whitelist c al a a' p v : body_rel c al a a' ->
   In (p, v) (e_styles a') -> allowed (c_pta c) (c_color c) (c_bg c) p v.
 Proof.
-  intros Hp [a4 [a5 [H4 [H5 H6]]]] Hi.
+  intros [a4 [a5 [H4 [H5 H6]]]] Hi.
   pose proof (styles_body_base c al a) as Eb.
   assert (forall q w, In (q, w) (keep_styles c (e_styles a)) -> allowed (c_pta c) (c_color c) (c_bg c) q w) as Hk.
-  { intros q w Hq. pose proof Hq as Hq'. apply In_keep_styles in Hq as [Hq Hs]. cbn [fst] in Hs.
-    apply supported_allowed; [exact Hs | exact (not_position_entry _ _ _ Hp Hq)]. }
+  { intros q w Hq. apply In_keep_styles in Hq as [Hq Hs]. cbn [fst] in Hs. apply supported_allowed; exact Hs. }
   assert (forall q w, In (q, w) (e_styles a4) -> allowed (c_pta c) (c_color c) (c_bg c) q w) as A4.
   { intros q w Hq. destruct H4 as [->|[col [Ec [_ ->]]]]; [rewrite Eb in Hq; auto|].
     cbn [set_style e_styles with_styles] in Hq. apply In_sset in Hq as [Hq|Hq]; [|rewrite Eb in Hq; auto].
@@ -222,31 +224,24 @@ Proof.
   assert (existsb f l = true) by (apply existsb_exists; exists x; auto). congruence.
 Qed.
 
-Theorem whitelist_partial_thm c d d' : lcd c d = Ok d' -> region_keys_unique d -> no_position_content d ->
+(* since fix 5958b0b: no hypothesis about tts:position *)
+Theorem whitelist_thm c d d' : lcd c d = Ok d' -> region_keys_unique d -> regions_childless d ->
   whitelist (c_pta c) (c_color c) (c_bg c) d'.
 Proof.
-  intros H Hu Ht. unfold no_position_content, trig_position_content in Ht.
-  apply orb_false_iff in Ht as [Ht Hrc]. apply orb_false_iff in Ht as [Hb Hi].
-  pose proof (existsb_false_forall _ _ Hb) as Hbody. cbv beta in Hbody.
-  pose proof (existsb_false_forall _ _ Hrc) as Hreg. cbv beta in Hreg.
+  intros H Hu Hch.
   destruct (lcd_body_prov _ _ _ H) as [out [_ [_ [Ein F]]]].
   split.
   - intros a p v Ha Hpv. unfold doc_attrs in Ha. apply in_app_or in Ha as [Ha|Ha].
     + unfold region_attrs in Ha. apply in_flat_map in Ha as [r2 [Hr Ha]].
       destruct (lcd_region_prov _ _ _ _ H Hr) as [r [wm [nda [Hin Hd]]]].
-      apply region_done_attrs in Hd as [st [Hl E]]. rewrite E in Ha. destruct Ha as [<-|Ha].
-      * cbn [e_styles with_styles] in Hpv. apply region_layout_final in Hl as [[V _] [P _]].
-        destruct (V _ Hpv) as [Hk|Hk]; [apply layout_allowed, Hk|]. cbn [fst] in *.
-        pose proof Hk as Hk'. apply In_keep_styles in Hk as [_ Hs]. cbn [fst] in Hs.
-        apply supported_allowed; [exact Hs|]. intros ->.
-        apply (P (NoDup_keep_styles _ _ (Hu _ Hin))). apply in_map_iff. exists (p_Position, v). auto.
-      * apply in_map_iff in Ha as [x [<- Hx]]. cbn [e_styles style_attrs anim_attrs with_styles with_anims] in Hpv.
-        pose proof Hpv as Hpv'. apply In_keep_styles in Hpv as [Hpv Hs]. cbn [fst] in Hs.
-        apply supported_allowed; [exact Hs|].
-        apply (not_position_entry (e_styles x) p v); [|exact Hpv].
-        exact (existsb_false_forall _ _ (Hreg _ Hin) _ Hx).
+      apply region_done_attrs in Hd as [st [Hl E]]. rewrite E, (Hch _ Hin) in Ha. destruct Ha as [<-|[]].
+      cbn [e_styles with_styles] in Hpv. apply region_layout_final in Hl as [[V _] [P _]].
+      destruct (V _ Hpv) as [Hk|Hk]; [apply layout_allowed, Hk|]. cbn [fst] in *.
+      pose proof Hk as Hk'. apply In_keep_rstyles in Hk as [_ Hs]. cbn [fst] in Hs.
+      apply rsupported_allowed; [exact Hs|]. intros ->.
+      apply (P (NoDup_keep_rstyles _ _ (Hu _ Hin))). apply in_map_iff. exists (p_Position, v). auto.
     + destruct (Forall2_In_r _ _ _ _ F Ha) as [a0 [Ha0 Hrel]].
-      exact (body_rel_whitelist _ _ _ _ _ _ (Hbody _ Ha0) Hrel Hpv).
-  - intros p v Hpv. rewrite Ein in Hpv. pose proof Hpv as Hpv'. apply In_keep_styles in Hpv as [Hpv Hs]. cbn [fst] in Hs.
-    apply supported_allowed; [exact Hs | exact (not_position_entry _ _ _ Hi Hpv)].
+      exact (body_rel_whitelist _ _ _ _ _ _ Hrel Hpv).
+  - intros p v Hpv. rewrite Ein in Hpv. apply In_keep_styles in Hpv as [Hpv Hs]. cbn [fst] in Hs.
+    apply supported_allowed; exact Hs.
 Qed.
